@@ -49,6 +49,16 @@ var c12plan = msgsPlan{
 	HalfOpen: true,
 	Extra: []extraScenario{
 		{Name: "hub-settle/M/hubsettle/stray-rej-virtual-id+hubsettle/valid"},
+		// (A2, A7) crafted proposals that reach the handler, which ACCEPTS
+		{Name: "nochan~acc/M/ledger/participant-empty"}, {Name: "open-v1~acc/M/ledger/participant-empty"},
+		{Name: "open-v1~acc/M/virtual/proposer-empty"}, {Name: "open-v0~acc/S/virtual/proposer-empty"},
+		{Name: "nochan~acc/M/ledger/fa-cols1"}, {Name: "nochan~acc/M/ledger/fa-sum-differs"}, {Name: "nochan~acc/M/ledger/fa-rows2"},
+		// (A5) the hub is asked to open a virtual channel on top of the virtual channel it merely holds
+		{Name: "hub-collude~gap/M/hubpair/valid+hubpair/vprop-on-held-virtual"},
+		{Name: "hub-collude~gapacc/M/hubpair/valid+hubpair/vprop-on-held-virtual"},
+		// (A1) the peer at sub-channel index 1 finalises the sub-channel and sends the parent withdrawal itself
+		{Name: "sub-v0~gapacc/M/a1/sub-final-by-peer+a1/parent-withdrawal-by-peer"},
+		{Name: "sub-v0~gap/M/a1/sub-final-by-peer+a1/parent-withdrawal-by-peer"},
 		{Name: "hub-settle/M/hubsettle/stray-acc-virtual-id+hubsettle/valid"},
 		{Name: "hub-settle/M/hubsettle/stray-rej-virtual-id-from-stranger+hubsettle/valid"},
 	},
@@ -98,6 +108,10 @@ func c12check(ssc schedrun.Scenario, s *vsched.Sched, o any) []schedrun.Verdict 
 	if obs.injected() == 0 {
 		return out // nothing could be expressed: whatever happened is not the doing of a crafted message
 	}
+	if obs.OwnKind != "" && obs.OwnKind != "update" && !obs.OwnHonest && (obs.ChansAfter > obs.ChansBefore || obs.OwnRes == "ok") {
+		out = append(out, schedrun.Verdict{Property: "C12", Clause: "channel-opened-with-crafted-response", Site: msgsSite(obs),
+			Detail: fmt.Sprintf("the victim's own %s proposal never reached the real M, the answers were crafted (%s) - yet ProposeChannel returned %s and the victim holds %d new channel(s)", obs.OwnKind, obs.Msg, obs.OwnRes, obs.ChansAfter-obs.ChansBefore)})
+	}
 	return append(out, probeVerdicts("C12", obs)...)
 }
 
@@ -109,7 +123,10 @@ var c12harness = schedrun.Harness{Name: "clients", Scenarios: msgsScenarios(c12m
 var c08rejMode = msgsMode{Prop: "C08", Reject: true, Probe: true}
 
 var c08rejPlan = msgsPlan{Points: msgsBasePoints, Cats: map[string]bool{"proposal": true},
-	NoncePts: map[string]string{"ledger": "nochan", "sub": "open-v1"}}
+	NoncePts: map[string]string{"ledger": "nochan", "sub": "open-v1"},
+	// (A5) after the colluding ends' honest matched funding the hub holds the virtual channel: a virtual
+	// channel proposal naming THAT channel as the receiver's parent must not reach the handler
+	Extra: []extraScenario{{Name: "hub-collude~gap/M/hubpair/valid+hubpair/vprop-on-held-virtual"}}}
 
 func c08rejCheck(ssc schedrun.Scenario, s *vsched.Sched, o any) []schedrun.Verdict {
 	obs := o.(*msgsObs)
@@ -144,6 +161,11 @@ func c08rejCheck(ssc schedrun.Scenario, s *vsched.Sched, o any) []schedrun.Verdi
 		case !bad && calls != 1:
 			out = append(out, schedrun.Verdict{Property: "C08", Clause: "control-not-delivered", Site: site,
 				Detail: fmt.Sprintf("positive control: the well-formed proposal %s from %s at point %s led to %d handler calls (want 1); the rejection check would be vacuous", it.Name, obs.Sender, obs.Pt, calls)})
+		}
+	}
+	for _, it := range obs.Items {
+		if it.Cat == "hubpair" && !it.Mut && chans > 0 {
+			chans-- // the hub's own copy of the virtual channel that the honest-looking matched funding creates
 		}
 	}
 	if chans != 0 {
